@@ -6,7 +6,10 @@ pub mod client {
     use futures::FutureExt;
     use futures::SinkExt;
     use futures::StreamExt;
+    #[cfg(not(octo_squirrel_verif))]
     use tokio::net::TcpStream;
+    #[cfg(octo_squirrel_verif)]
+    use crate::verif::net::TcpStream;
     use tokio_util::codec::FramedRead;
     use tokio_util::codec::FramedWrite;
 
@@ -41,7 +44,10 @@ pub mod server {
     use futures::FutureExt;
     use futures::SinkExt;
     use futures::StreamExt;
+    #[cfg(not(octo_squirrel_verif))]
     use tokio::net::TcpStream;
+    #[cfg(octo_squirrel_verif)]
+    use crate::verif::net::TcpStream;
     use tokio_util::codec::FramedRead;
     use tokio_util::codec::FramedWrite;
 
